@@ -6,6 +6,11 @@
 //!      C04: valid-by-construction documents confirmed by `valid.spec`; failure = any real diagnostic.
 //! Every case is the triple (schema SDL texts, document text, labels) — corpus, generated cases and replays go
 //! through the same function.
+//!   C03 mutants are also injected into SHAPED documents (mutate.rs `shape_*`: a cloned operation, an unspread wrapper
+//!   fragment before the operations, shuffled definitions) and two operators put a variable fault into ONE of several
+//!   operations that reach a shared fragment. C04 has a second O stream over multi-file projects with `#import`
+//!   (imports.rs; cases with a `files` array). Of all failures with one signature the smallest input is reported.
+//!   A `--search 1` run (second run of `./check` in the quick tier when P/K is broken) is cut by the clock.
 use nitrogql_ast::{
     directive::Directive as RDirective,
     operation::ExecutableDefinition,
@@ -23,6 +28,8 @@ use std::collections::{BTreeMap, BTreeSet, HashMap};
 #[path = "mutate.rs"]
 pub mod mutate;
 use mutate::{Label, Sch};
+#[path = "imports.rs"]
+pub mod imports;
 
 #[derive(Clone, Debug)]
 pub struct Case {
@@ -238,6 +245,25 @@ struct Ctx<'a> {
     rep: &'a mut Report,
     drv: &'a mut Driver,
     kinds: BTreeMap<String, Vec<String>>,
+    /// per (stream, signature): the SMALLEST failing case seen so far (size, what, case) and the number of failures
+    best: Best,
+}
+
+type Best = BTreeMap<(String, String), (usize, String, J, u64)>;
+
+fn record(best: &mut Best, stream: &str, signature: &str, what: &str, case: J, size: usize) {
+    let e = best.entry((stream.to_string(), signature.to_string())).or_insert((usize::MAX, String::new(), J::Null, 0));
+    e.3 += 1;
+    if size < e.0 {
+        e.0 = size;
+        e.1 = what.to_string();
+        e.2 = case;
+    }
+}
+
+fn triple_of(e: &Sexp) -> Triple {
+    let l = e.as_list().unwrap_or(&[]);
+    (l.first().and_then(|x| x.as_atom()).unwrap_or("?").to_string(), l.get(1).and_then(|x| x.as_int()).unwrap_or(-1) as usize, l.get(2).and_then(|x| x.as_int()).unwrap_or(-1) as usize)
 }
 
 fn strs(s: &Sexp) -> Vec<String> {
@@ -306,6 +332,152 @@ fn classify_c04(sm: Option<&SchemaModel>, doc: &Doc, d: &Triple) -> String {
 }
 
 impl<'a> Ctx<'a> {
+    /// record a failure; of all failures with one signature the smallest input is reported (`flush`)
+    fn fail(&mut self, stream: &str, signature: &str, what: &str, case: J, size: usize) {
+        record(&mut self.best, stream, signature, what, case, size)
+    }
+    fn flush(&mut self) {
+        for ((stream, sig), (_, what, case, n)) in std::mem::take(&mut self.best) {
+            self.rep.fail(&stream, &sig, &what, case);
+            if n > 1 {
+                self.rep.count_n(&format!("fail:{stream}:{sig}"), n - 1);
+            }
+        }
+    }
+
+    /// all projects (multi-file documents) of one schema — see imports.rs
+    fn group_projects(&mut self, sdl: &[String], projects: Vec<imports::Project>) {
+        if projects.is_empty() {
+            return;
+        }
+        let run = with_schema(sdl, |resolved, schema| {
+            let ts = from_real_tsdoc(resolved).to_sexp();
+            let outs: Vec<Result<imports::ProjectOut, String>> = projects.iter().map(|p| imports::run_project_real(schema, &p.files)).collect();
+            (ts, outs)
+        });
+        let (ts, outs) = match run {
+            Ok(x) => x,
+            Err(_) => {
+                self.rep.count("schema-not-usable:import-stream");
+                return;
+            }
+        };
+        // requests: per root `all` on the really merged document (K) and `valid.spec` on the abstract merge (O)
+        let mut reqs = vec![];
+        let mut idx: Vec<(usize, usize, bool, bool)> = vec![]; // (project, root, has `all`, has `valid.spec`)
+        let mut abstracts: BTreeMap<(usize, usize), Result<(), String>> = BTreeMap::new();
+        for (pi, o) in outs.iter().enumerate() {
+            let o = match o {
+                Ok(o) => o,
+                Err(why) => {
+                    self.rep.count(&format!("import:not-checked:{}", why.split(':').next().unwrap_or("")));
+                    if why.starts_with("panic") {
+                        let size = projects[pi].size();
+                        self.fail("O", "import:panic", &format!("the real pipeline panicked on a multi-file project: {why}"), projects[pi].to_json(&self.prop, 0), size);
+                    } else if self.rep.notes.len() < 5 {
+                        self.rep.notes.push(format!("import project not checked: {why}"));
+                    }
+                    continue;
+                }
+            };
+            let files: Vec<(String, Doc)> = projects[pi].files.iter().zip(o.parsed.iter()).map(|(f, d)| (f.path.clone(), d.clone())).collect();
+            for (ri, r) in o.roots.iter().enumerate() {
+                let has_all = if let imports::RootOut::Checked { doc, .. } = r {
+                    reqs.push(Sexp::call("all", vec![ts.clone(), doc.to_sexp()]));
+                    true
+                } else {
+                    false
+                };
+                let has_spec = match imports::abstract_merge(&files, ri) {
+                    Ok(d) => {
+                        reqs.push(Sexp::call("valid.spec", vec![ts.clone(), d.to_sexp()]));
+                        abstracts.insert((pi, ri), Ok(()));
+                        true
+                    }
+                    Err(e) => {
+                        abstracts.insert((pi, ri), Err(e));
+                        false
+                    }
+                };
+                idx.push((pi, ri, has_all, has_spec));
+            }
+        }
+        let ans = self.drv.batch(&reqs);
+        let mut k = 0;
+        for (pi, ri, has_all, has_spec) in idx {
+            let p = &projects[pi];
+            let Ok(o) = &outs[pi] else { continue };
+            let size = p.size();
+            self.rep.evaluations += 1;
+            // ---- K on the really merged document ----
+            if has_all {
+                let a = &ans[k];
+                k += 1;
+                if let imports::RootOut::Checked { diags, .. } = &o.roots[ri] {
+                    if a.head() == Some("all") && a.args().len() == 4 {
+                        let mut model: Vec<Triple> = a.args()[0].args().iter().map(triple_of).collect();
+                        let mut realv = diags.clone();
+                        model.sort();
+                        realv.sort();
+                        self.rep.k_cases += 1;
+                        if model != realv {
+                            let only_real: Vec<&Triple> = realv.iter().filter(|t| !model.contains(t)).collect();
+                            let only_model: Vec<&Triple> = model.iter().filter(|t| !realv.contains(t)).collect();
+                            let sig = only_real.first().or(only_model.first()).map(|t| t.0.clone()).unwrap_or_else(|| "multiplicity".into());
+                            self.fail("K", &format!("check:{sig}"), &format!("model ≠ code on (import, root {}) only-code {:?} only-model {:?}", p.files[ri].path, only_real, only_model), p.to_json(&self.prop, ri), size);
+                        }
+                    } else {
+                        self.fail("K", "driver-answer", &format!("unexpected driver answer {}", a.to_line().chars().take(200).collect::<String>()), p.to_json(&self.prop, ri), size);
+                    }
+                }
+            }
+            // ---- O: the abstract merge is spec-valid ⇒ no diagnostic ----
+            if !has_spec {
+                self.rep.count(&format!("import:abstract-merge-undefined:{}", abstracts.get(&(pi, ri)).and_then(|r| r.as_ref().err()).map(|e| e.split(':').next().unwrap_or("").to_string()).unwrap_or_default()));
+                continue;
+            }
+            let a = &ans[k];
+            k += 1;
+            if self.prop != "C04" {
+                continue;
+            }
+            let spec_ok = a.head() == Some("spec") && a.args().first().and_then(|x| x.as_atom()) == Some("true");
+            if !spec_ok {
+                let v: Vec<String> = a.args().iter().skip(1).filter_map(|x| x.as_str().map(|s| s.to_string())).collect();
+                self.rep.count(&format!("import:root-not-spec-valid:{}", v.join("+")));
+                continue;
+            }
+            self.rep.o_cases += 1;
+            self.rep.count(&format!("o:{}", p.origin.split(':').next().unwrap_or("")));
+            if ri == 0 {
+                for f in &p.features {
+                    self.rep.count(&format!("feature:{f}"));
+                }
+            }
+            self.rep.nontrivial(&format!("{}|{}|{}", p.sdl.join("\n"), ri, p.files.iter().map(|f| format!("{}\n{}", f.path, f.text)).collect::<Vec<_>>().join("\n--\n")));
+            match &o.roots[ri] {
+                imports::RootOut::Checked { raw, diags, .. } => {
+                    if let (Some(d), Some(t)) = (raw.first(), diags.first()) {
+                        let place = if d.file == ri + 1 { "in-importing-file" } else { "in-imported-definition" };
+                        self.fail(
+                            "O",
+                            &format!("import:{}:{}", t.0, place),
+                            &format!("false alarm on a spec-valid multi-file document (root {}): {} at {}:{} of file #{} ({}) — {} diagnostics in all", p.files[ri].path, t.0, d.line, d.col, d.file, d.message, raw.len()),
+                            p.to_json(&self.prop, ri),
+                            size,
+                        );
+                    }
+                }
+                imports::RootOut::ImportError(kind, msg) => {
+                    self.fail("O", &format!("import:import-error:{kind}"), &format!("import resolution fails on a spec-valid multi-file document (root {}): {msg}", p.files[ri].path), p.to_json(&self.prop, ri), size);
+                }
+                imports::RootOut::Panic(m) => {
+                    self.fail("O", "import:panic", &format!("the real pipeline panicked (root {}): {m}", p.files[ri].path), p.to_json(&self.prop, ri), size);
+                }
+            }
+        }
+    }
+
     /// all cases of one schema
     fn group(&mut self, sdl: &[String], cases: Vec<Case>) {
         if cases.is_empty() {
@@ -335,7 +507,8 @@ impl<'a> Ctx<'a> {
                 RealOut::NotChecked(why) => {
                     self.rep.count(&format!("not-checked:{}:{}", cases[i].origin.split(':').next().unwrap_or(""), why.split(':').take(2).collect::<Vec<_>>().join(":")));
                     if why.starts_with("panic") {
-                        self.rep.fail("O", &format!("panic:{}", cases[i].origin), &format!("the real pipeline panicked: {why}"), cases[i].to_json(&self.prop));
+                        let cj = cases[i].to_json(&self.prop);
+                        self.fail("O", &format!("panic:{}", cases[i].origin), &format!("the real pipeline panicked: {why}"), cj, cases[i].text.len());
                     }
                 }
             }
@@ -351,8 +524,9 @@ impl<'a> Ctx<'a> {
     fn one(&mut self, case: &Case, sm: Option<&SchemaModel>, doc: &Doc, real: &[Triple], raw: &[Diag], ans: &Sexp) {
         self.rep.evaluations += 1;
         let cj = || case.to_json(&self.prop);
+        let size = case.text.len();
         if ans.head() != Some("all") || ans.args().len() != 4 {
-            self.rep.fail("K", "driver-answer", &format!("unexpected driver answer {}", ans.to_line().chars().take(200).collect::<String>()), case.to_json(&self.prop));
+            record(&mut self.best, "K", "driver-answer", &format!("unexpected driver answer {}", ans.to_line().chars().take(200).collect::<String>()), case.to_json(&self.prop), size);
             return;
         }
         let a = ans.args();
@@ -376,7 +550,7 @@ impl<'a> Ctx<'a> {
             let only_real: Vec<&Triple> = realv.iter().filter(|t| !model.contains(t)).collect();
             let only_model: Vec<&Triple> = model.iter().filter(|t| !realv.contains(t)).collect();
             let sig = only_real.first().or(only_model.first()).map(|t| t.0.clone()).unwrap_or_else(|| "multiplicity".into());
-            self.rep.fail("K", &format!("check:{sig}"), &format!("model ≠ code on ({}) only-code {:?} only-model {:?}", case.origin, only_real, only_model), cj());
+            record(&mut self.best, "K", &format!("check:{sig}"), &format!("model ≠ code on ({}) only-code {:?} only-model {:?}", case.origin, only_real, only_model), cj(), size);
         }
         let rules = strs(&a[1]);
         let spec_ok = a[2].args().first().and_then(|x| x.as_atom()) == Some("true");
@@ -413,7 +587,7 @@ impl<'a> Ctx<'a> {
             if let Some(d) = real.first() {
                 let cls = classify_c04(sm, doc, d);
                 let msg = raw.first().map(|r| r.message.clone()).unwrap_or_default();
-                self.rep.fail("O", &format!("{}:{}", d.0, cls), &format!("false alarm on a spec-valid document: {} at {}:{} ({msg}) — {} diagnostics in all", d.0, d.1, d.2, real.len()), cj());
+                record(&mut self.best, "O", &format!("{}:{}", d.0, cls), &format!("false alarm on a spec-valid document: {} at {}:{} ({msg}) — {} diagnostics in all", d.0, d.1, d.2, real.len()), cj(), size);
             }
         }
         if self.prop == "C03" && !case.labels.is_empty() {
@@ -432,25 +606,27 @@ impl<'a> Ctx<'a> {
                 self.rep.count(&format!("mutation:{}", l.mutation));
                 self.rep.count(&format!("class:{}", l.class.split('/').next().unwrap_or("")));
                 if real.is_empty() {
-                    self.rep.fail("O", &format!("{}:{}", l.rule, l.class), &format!("accepted with no diagnostic although rule {} is violated ({} at {})", l.rule, l.mutation, l.class), cj());
+                    record(&mut self.best, "O", &format!("{}:{}", l.rule, l.class), &format!("accepted with no diagnostic although rule {} is violated ({} at {})", l.rule, l.mutation, l.class), cj(), size);
                 } else if !has_kind(l) {
-                    self.rep.fail(
+                    record(
+                        &mut self.best,
                         "O",
                         &format!("{}:{}", l.rule, l.class),
                         &format!("rule {} is violated ({} at {}) but no diagnostic of its kinds {:?}; got {:?}", l.rule, l.mutation, l.class, self.kinds.get(&l.rule), real.iter().map(|d| &d.0).collect::<BTreeSet<_>>()),
                         cj(),
+                        size,
                     );
                 }
             } else {
                 self.rep.count("mutation:double-fault");
                 if real.is_empty() {
                     let sig = case.labels.iter().map(|l| format!("{}:{}", l.rule, l.class)).collect::<Vec<_>>().join("&");
-                    self.rep.fail("O", &sig, &format!("double fault accepted with no diagnostic ({:?})", case.labels), cj());
+                    record(&mut self.best, "O", &sig, &format!("double fault accepted with no diagnostic ({:?})", case.labels), cj(), size);
                 } else {
                     let hit = case.labels.iter().filter(|l| has_kind(l)).count();
                     if hit == 0 {
                         let sig = case.labels.iter().map(|l| format!("{}:{}", l.rule, l.class)).collect::<Vec<_>>().join("&");
-                        self.rep.fail("O", &sig, &format!("double fault: no diagnostic of a kind belonging to either rule ({:?}); got {:?}", case.labels, real), cj());
+                        record(&mut self.best, "O", &sig, &format!("double fault: no diagnostic of a kind belonging to either rule ({:?}); got {:?}", case.labels, real), cj(), size);
                     } else if hit < case.labels.len() {
                         self.rep.count("double-fault:one-rule-masked-by-the-other");
                     }
@@ -554,16 +730,24 @@ pub fn run(prop: &str) {
             }
         }
     }
-    let mut ctx = Ctx { prop: prop.to_string(), rep: &mut rep, drv: &mut drv, kinds };
+    let mut ctx = Ctx { prop: prop.to_string(), rep: &mut rep, drv: &mut drv, kinds, best: BTreeMap::new() };
     if ctx.kinds.len() < 20 {
         ctx.rep.fail("K", "kinds-table", "the driver did not return the rule ↔ kind table", json!({}));
     }
 
     if let Some(path) = &args.replay {
         let v: J = serde_json::from_str(&std::fs::read_to_string(path).expect("replay file")).expect("replay json");
-        let case = Case::from_json(&v["case"]);
-        let sdl = case.sdl.clone();
-        ctx.group(&sdl, vec![case]);
+        if v["case"]["files"].is_array() {
+            if let Some(p) = imports::Project::from_json(&v["case"]) {
+                let sdl = p.sdl.clone();
+                ctx.group_projects(&sdl, vec![p]);
+            }
+        } else {
+            let case = Case::from_json(&v["case"]);
+            let sdl = case.sdl.clone();
+            ctx.group(&sdl, vec![case]);
+        }
+        ctx.flush();
         rep.write(&args);
         return;
     }
@@ -576,6 +760,10 @@ pub fn run(prop: &str) {
     for ((sdl, _), cases) in by_schema {
         ctx.group(&sdl, cases);
     }
+    if prop == "C04" {
+        let s1 = corpus()[0].sdl[0].clone();
+        ctx.group_projects(&[s1.clone()], imports::corpus(&s1));
+    }
 
     // hash (property, seed): adjacent SplitMix seeds would give the same stream shifted by one draw
     let mut rng = Rng::new(nvh::report::fnv(&format!("{prop}:{}", args.seed)));
@@ -583,13 +771,23 @@ pub fn run(prop: &str) {
     let n_schemas = args.budget(60, 600) * if search { 2 } else { 1 };
     let docs_per_schema = 6;
     let mut sampled = 0;
+    // `--search 1` is the second run `./check` makes within the QUICK tier when P/K is broken and the first run found
+    // no failing input: it must not take the time of a thorough run (measured 7 min), so it is cut by the clock.
+    let started = std::time::Instant::now();
+    let search_cap = std::time::Duration::from_secs(args.extra.get("search-seconds").and_then(|s| s.parse().ok()).unwrap_or(20));
     for si in 0..n_schemas {
+        if search && started.elapsed() > search_cap {
+            ctx.rep.count("search-cut-by-clock");
+            ctx.rep.notes.push(format!("search run stopped after {} schemas ({} s cap)", si, search_cap.as_secs()));
+            break;
+        }
         let cfg = GenCfg { coercions: prop == "C04" && si % 3 == 2, explicit_schema: si % 2 == 0, ..GenCfg::default() };
         let schema = gen_schema(&mut rng, &cfg);
         let sdl = vec![schema.sdl()];
         let sch = Sch { m: &schema };
         let mut cases: Vec<Case> = vec![];
-        for _ in 0..docs_per_schema {
+        let mut projects: Vec<imports::Project> = vec![];
+        for di in 0..docs_per_schema {
             let (doc, feats) = gen_doc(&mut rng, &schema, &cfg);
             let feats: Vec<String> = feats.into_iter().collect();
             let noisy = rng.chance(1, 4);
@@ -617,11 +815,68 @@ pub fn run(prop: &str) {
                 f.push("variation:subscription-root-selected-twice".into());
                 cases.push(Case { sdl: sdl.clone(), text: render(&d2, &mut rng), labels: vec![], origin: "valid-variant:subscription-root-twice".into(), features: f, raw_schema: false });
             }
+            if prop == "C04" {
+                // validity-preserving shapes: two operations reaching the same fragments; another definition order
+                if rng.chance(1, 3) {
+                    if let Some(d2) = mutate::shape_clone_operation(&mut rng, &doc) {
+                        let mut f = feats.clone();
+                        f.push("variation:cloned-operation".into());
+                        cases.push(Case { sdl: sdl.clone(), text: render(&d2, &mut rng), labels: vec![], origin: "valid-variant:cloned-operation".into(), features: f, raw_schema: false });
+                    }
+                }
+                if rng.chance(1, 3) {
+                    let d2 = mutate::shape_reorder(&mut rng, &doc);
+                    let mut f = feats.clone();
+                    f.push("variation:reordered-definitions".into());
+                    cases.push(Case { sdl: sdl.clone(), text: render(&d2, &mut rng), labels: vec![], origin: "valid-variant:reordered-definitions".into(), features: f, raw_schema: false });
+                }
+                // multi-file projects with #import (every other document)
+                if di % 2 == 0 {
+                    if let Some(p) = imports::gen_project(&mut rng, &sdl, &doc, noisy) {
+                        projects.push(p);
+                    }
+                }
+            }
             // mutants
             let n_mut = if prop == "C03" { args.budget(6, 10) } else { 2 };
             let sites = mutate::collect_sites(&sch, &doc);
             for _ in 0..n_mut {
                 let name = mutate::MUTATIONS[rng.below(mutate::MUTATIONS.len())];
+                // shape transformation first (C03): the fault is injected into a document in which several
+                // definitions reach the same fragments / definitions come in another order
+                let per_op = name.ends_with("-in-one-operation");
+                let shape = if prop != "C03" { 9 } else { rng.below(8) };
+                let mut wrapped: Option<BTreeSet<String>> = None;
+                let shaped: Option<Doc> = match shape {
+                    0 | 1 => mutate::shape_clone_operation(&mut rng, &doc),
+                    2 => mutate::shape_unspread_wrapper_first(&mut rng, &doc).map(|(d, r)| {
+                        wrapped = Some(r);
+                        d
+                    }),
+                    3 => Some(mutate::shape_reorder(&mut rng, &doc)),
+                    _ if per_op && prop == "C03" && mutate::reaching_ops(&doc).values().all(|v| v.len() < 2) => mutate::shape_clone_operation(&mut rng, &doc),
+                    _ => None,
+                };
+                if let Some(d2) = shaped {
+                    let shape_name = if wrapped.is_some() { "unspread-wrapper-first" } else if shape == 3 { "reordered" } else { "cloned-operation" };
+                    let s2 = mutate::collect_sites(&sch, &d2);
+                    let mut mc = mutate::MCtx { rng: &mut rng, sch: &sch, doc: &d2, sites: &s2, only_def: None };
+                    let Some(mut m) = mutate::apply(name, &mut mc) else {
+                        ctx.rep.count(&format!("mutation-not-applicable:{name}"));
+                        continue;
+                    };
+                    ctx.rep.count(&format!("shape:{shape_name}"));
+                    if let Some(reached) = &wrapped {
+                        // the fault sits in a fragment that an unspread fragment defined before the operations reaches, too
+                        // (the class keeps only the depth of the fragment: the site does not matter for this kind of fault)
+                        if m.label.class.starts_with("frag") && mutate::touched_definitions(&d2, &m.doc).iter().any(|n| reached.contains(n)) {
+                            let base = m.label.class.split(|c| c == '/' || c == '+').next().unwrap_or("frag").to_string();
+                            m.label.class = format!("{base}@also-reached-from-earlier-unspread-fragment");
+                        }
+                    }
+                    cases.push(Case { sdl: sdl.clone(), text: render(&m.doc, &mut rng), labels: vec![m.label], origin: format!("mutant+{shape_name}"), features: vec![], raw_schema: false });
+                    continue;
+                }
                 let unspread = rng.chance(1, 6);
                 let m = if unspread {
                     match mutate::add_unspread_clone(&mut rng, &doc) {
@@ -655,6 +910,8 @@ pub fn run(prop: &str) {
             }
         }
         ctx.group(&sdl, cases);
+        ctx.group_projects(&sdl, projects);
     }
+    ctx.flush();
     rep.write(&args);
 }
